@@ -168,6 +168,50 @@ theorem decode_words :
                                le64At seed 4, le64At seed 5, le64At seed 6, le64At seed 7⟩) :=
   ⟨fun _ => rfl, fun _ => rfl, fun _ => rfl, fun _ => rfl, fun _ => rfl⟩
 
+/-- **End to end** (the property as worded): for every seed that is not all zero, `from_seed(seed)`
+    is a generator whose native output at *every* stream position k is the reference value at
+    position k, the reference being started from the state whose words are the little-endian words
+    of the seed.  Generic in the generator; the 14 instances follow. -/
+theorem end_to_end {σ τ : Type} {w : Nat} (g : XoGen σ) (next : σ → BitVec w × σ) (ref : τ → Nat × τ) (abs : σ → τ)
+    (hstep : ∀ s, ((next s).1.toNat, abs (next s).2) = ref (abs s))
+    (seed : List U8) (hz : isAllZero seed = false) (k : Nat) :
+    ∃ st, g.fromSeed? seed = some st ∧ st = g.decode seed ∧
+      (mstream next st k).toNat = Vigna.stream ref (abs (g.decode seed)) k :=
+  ⟨g.decode seed, fromSeed_verbatim g seed hz, rfl, stream_of_step next ref abs hstep _ k⟩
+
+theorem Xoroshiro64Star_end_to_end (seed : List U8) (hz : isAllZero seed = false) (k : Nat) :
+    ∃ st, Xoroshiro64Star.gen.fromSeed? seed = some st ∧
+      (mstream Xoroshiro64Star.nextU32 st k).toNat =
+        Vigna.stream Vigna.xoroshiro64star ⟨(le32At seed 0).toNat, (le32At seed 1).toNat⟩ k := by
+  obtain ⟨st, h1, _, h3⟩ := end_to_end Xoroshiro64Star.gen _ _ abs2 Xoroshiro64Star_step seed hz k
+  exact ⟨st, h1, h3⟩
+theorem Xoroshiro128PlusPlus_end_to_end (seed : List U8) (hz : isAllZero seed = false) (k : Nat) :
+    ∃ st, Xoroshiro128PlusPlus.gen.fromSeed? seed = some st ∧
+      (mstream Xoroshiro128PlusPlus.nextU64 st k).toNat =
+        Vigna.stream Vigna.xoroshiro128plusplus ⟨(le64At seed 0).toNat, (le64At seed 1).toNat⟩ k := by
+  obtain ⟨st, h1, _, h3⟩ := end_to_end Xoroshiro128PlusPlus.gen _ _ abs2 Xoroshiro128PlusPlus_step seed hz k
+  exact ⟨st, h1, h3⟩
+theorem Xoshiro128StarStar_end_to_end (seed : List U8) (hz : isAllZero seed = false) (k : Nat) :
+    ∃ st, Xoshiro128StarStar.gen.fromSeed? seed = some st ∧
+      (mstream Xoshiro128StarStar.nextU32 st k).toNat =
+        Vigna.stream Vigna.xoshiro128starstar
+          ⟨(le32At seed 0).toNat, (le32At seed 1).toNat, (le32At seed 2).toNat, (le32At seed 3).toNat⟩ k := by
+  obtain ⟨st, h1, _, h3⟩ := end_to_end Xoshiro128StarStar.gen _ _ abs4 Xoshiro128StarStar_step seed hz k
+  exact ⟨st, h1, h3⟩
+theorem Xoshiro256PlusPlus_end_to_end (seed : List U8) (hz : isAllZero seed = false) (k : Nat) :
+    ∃ st, Xoshiro256PlusPlus.gen.fromSeed? seed = some st ∧
+      (mstream Xoshiro256PlusPlus.nextU64 st k).toNat =
+        Vigna.stream Vigna.xoshiro256plusplus
+          ⟨(le64At seed 0).toNat, (le64At seed 1).toNat, (le64At seed 2).toNat, (le64At seed 3).toNat⟩ k := by
+  obtain ⟨st, h1, _, h3⟩ := end_to_end Xoshiro256PlusPlus.gen _ _ abs4 Xoshiro256PlusPlus_step seed hz k
+  exact ⟨st, h1, h3⟩
+theorem Xoshiro512StarStar_end_to_end (seed : List U8) (hz : isAllZero seed = false) (k : Nat) :
+    ∃ st, Xoshiro512StarStar.gen.fromSeed? seed = some st ∧
+      (mstream Xoshiro512StarStar.nextU64 st k).toNat =
+        Vigna.stream Vigna.xoshiro512starstar (abs8 (S8.decode seed)) k := by
+  obtain ⟨st, h1, _, h3⟩ := end_to_end Xoshiro512StarStar.gen _ _ abs8 Xoshiro512StarStar_step seed hz k
+  exact ⟨st, h1, h3⟩
+
 /-- non-vacuity: a non-zero seed exists and the reference is anchored to the published test
     vector of xoroshiro64star.c used in the crate (seed words 1, 2 → 2654435771, 327208753). -/
 example : isAllZero [1, 0, 0, 0, 2, 0, 0, 0] = false := by decide
